@@ -735,7 +735,7 @@ pub fn gen_building(rng: &mut Rng, cfg: &BuildCfg) -> ABuilding {
                     adiabatic,
                     next_to,
                     layers: layer_names[rng.usize(nl)].clone(),
-                    absorptance: rng.dec(0.2, 0.9, 2) as f32,
+                    absorptance: if rng.chance(0.08) { 0.0 } else { rng.dec(0.2, 0.9, 2) as f32 },
                     loc: WallLoc::Vertex(v + 1),
                     windows: vec![],
                 };
